@@ -397,13 +397,19 @@ func c06r3(p *Program, r *Report) {
 func c06r4(p *Program, r *Report) {
 	// closeWithError
 	if fi := r.NeedFunc("(*Conn).closeWithError"); fi != nil {
-		g := p.GraphOf(fi)
+		// helpers that hold part of the close sequence (the critical section, the delivery) are expanded in place
+		g := p.GraphOfInl(fi)
 		info := g.Info
 		facts := g.GuardFacts()
 		locks := g.Lockset()
 		ef := g.Events(connEvents(p, g))
 		nset := 0
-		ast.Inspect(fi.Decl.Body, func(n ast.Node) bool {
+		inspectUnits := func(f func(n ast.Node) bool) {
+			for _, u := range g.Units() {
+				ast.Inspect(u.Decl.Body, f)
+			}
+		}
+		inspectUnits(func(n ast.Node) bool {
 			as, ok := n.(*ast.AssignStmt)
 			if !ok {
 				return true
@@ -432,7 +438,7 @@ func c06r4(p *Program, r *Report) {
 		if nset == 0 {
 			r.Unresolved("closeWithError never assigns Conn.closed")
 		}
-		for _, e := range g.Exits() {
+		for _, e := range g.ExitsInl() {
 			s, ok := ef.ExitState(e)
 			if !ok || !s.Must["setClosed"] || e.Kind == ExitPanic {
 				continue
@@ -441,7 +447,7 @@ func c06r4(p *Program, r *Report) {
 				"every path that set closed calls c.cancel() and c.close()", "a path that set closed=true returns without c.cancel() and c.close(): goroutines waiting on c.ctx / the socket never wake")
 		}
 		// ordering: cancel before socket close; error handler after socket close
-		ast.Inspect(fi.Decl.Body, func(n ast.Node) bool {
+		inspectUnits(func(n ast.Node) bool {
 			c, ok := n.(*ast.CallExpr)
 			if !ok {
 				return true
@@ -729,15 +735,28 @@ func c06r8(p *Program, r *Report) {
 		p.forEachFunc(false, func(fi *FuncInfo) {
 			info := fi.Pkg.TypesInfo
 			var loops []ast.Stmt
+			viaHelper := false
 			ast.Inspect(fi.Decl.Body, func(n ast.Node) bool {
 				if fs, ok := n.(*ast.ForStmt); ok {
 					has := false
-					inspectNoLit(fs.Body, func(x ast.Node) bool {
+					scan := func(x ast.Node) bool {
 						if u, ok := x.(*ast.UnaryExpr); ok && u.Op == token.ARROW && fieldOf(info, u.X) == fv {
 							has = true
 						}
+						// the loop body (or its condition) may be a helper that holds the select
+						if c, ok := x.(*ast.CallExpr); ok {
+							if fn := calleeOf(info, c); fn != nil {
+								if h := p.FuncOf(fn); h != nil && h.Pkg == p.Root && h != fi && receivesFrom(p, h, fv, 0) {
+									has, viaHelper = true, true
+								}
+							}
+						}
 						return true
-					})
+					}
+					inspectNoLit(fs.Body, scan)
+					if fs.Cond != nil {
+						inspectNoLit(fs.Cond, scan)
+					}
 					if has {
 						loops = append(loops, fs)
 					}
@@ -749,6 +768,9 @@ func c06r8(p *Program, r *Report) {
 			}
 			nrecv++
 			g := p.GraphOf(fi)
+			if viaHelper {
+				g = p.GraphOfInl(fi)
+			}
 			ef := g.Events(func(st Step) []string {
 				switch st.Kind {
 				case StComm:
@@ -770,9 +792,16 @@ func c06r8(p *Program, r *Report) {
 				}
 				return nil
 			})
-			for _, e := range g.Exits() {
+			exits := g.Exits()
+			if viaHelper {
+				exits = g.ExitsInl()
+			}
+			for _, e := range exits {
 				if e.Kind == ExitPanic {
 					continue
+				}
+				if viaHelper && e.Node != nil && g.unitOf(e.Node) != fi {
+					continue // a return of the expanded helper goes back into the loop, not out of the goroutine
 				}
 				// exits in or after the receiving loop (a labelled break leaves the loop and the goroutine ends after it)
 				inLoop := e.Node == nil
@@ -799,6 +828,29 @@ func c06r8(p *Program, r *Report) {
 			r.Bad(sends[0], "bare send on "+fv.Name()+" has no receiving loop", "no goroutine loop receives from this channel")
 		}
 	}
+}
+
+// receivesFrom: fi (or a function of the module it calls, three levels) contains a receive from the channel field fv.
+func receivesFrom(p *Program, fi *FuncInfo, fv *types.Var, depth int) bool {
+	if fi.Decl.Body == nil || depth > 3 {
+		return false
+	}
+	info := fi.Pkg.TypesInfo
+	found := false
+	inspectNoLit(fi.Decl.Body, func(x ast.Node) bool {
+		if u, ok := x.(*ast.UnaryExpr); ok && u.Op == token.ARROW && fieldOf(info, u.X) == fv {
+			found = true
+		}
+		if c, ok := x.(*ast.CallExpr); ok && !found {
+			if fn := calleeOf(info, c); fn != nil {
+				if h := p.FuncOf(fn); h != nil && h.Pkg == p.Root && h != fi && receivesFrom(p, h, fv, depth+1) {
+					found = true
+				}
+			}
+		}
+		return true
+	})
+	return found
 }
 
 // goTargets resolves the functions started by go statements in the root package.
